@@ -449,7 +449,10 @@ func c12_genC12(repo string) string {
 						if id, ok := call.Args[1].(*ast.Ident); ok {
 							exports = append(exports, fmt.Sprintf("(%s, %s)", strconv.Quote(script), strconv.Quote(m+"."+id.Name)))
 						} else {
-							panic("export " + script + ": builtin is not a named function")
+							// not a plain function name (e.g. a wrapper applied to one): recorded as written, so that the
+							// tie exports_covered fails (no operation has such a Go function) while the tables still build
+							// and the correspondence run still exercises the script-visible name
+							exports = append(exports, fmt.Sprintf("(%s, %s)", strconv.Quote(script), strconv.Quote(m+"."+c12Str(fset, call.Args[1]))))
 						}
 					}
 				case "object.NewDynamicAttr":
